@@ -427,4 +427,82 @@ theorem k_squeezing_clauses (d fresh : KState) (p : Bytes) (hs : KSafe d) (hdir 
   · rw [hrt]; exact hsum
   · rw [hrt]; exact (k_reset_restores d p hs).2.2.2.2
 
+/-! ## transparency over whole histories -/
+
+/-- every state reachable from a constructor by Writes is safe -/
+theorem newDigest_safe (L : Laws A) (size : Nat) (key : Bytes) (d0 : Digest A) (h : newDigest A size key = some d0) :
+    SafeState d0 := by
+  obtain ⟨hI, hs, _, _, _, _⟩ := rel_new L size key d0 h
+  have hk := newDigest_key_len size key d0 h
+  have hsz : 1 ≤ size ∧ size ≤ A.maxSize := by
+    unfold newDigest at h
+    split at h
+    · cases h
+    · rename_i hn; omega
+  exact ⟨⟨by rw [hs]; exact hsz.1, by rw [hs]; exact hsz.2, hI.1, hI.2⟩, hk⟩
+
+theorem foldl_write_safe (L : Laws A) (chunks : List Bytes) : ∀ (d : Digest A), SafeState d →
+    SafeState (chunks.foldl Digest.write d) ∧ (chunks.foldl Digest.write d).keyLen = d.keyLen ∧
+    (chunks.foldl Digest.write d).key = d.key := by
+  induction chunks with
+  | nil => intro d h; exact ⟨h, rfl, rfl⟩
+  | cons p r ih =>
+    intro d h
+    obtain ⟨a1, a2, a3⟩ := ih (d.write p) (safe_write L d h p)
+    obtain ⟨_, e2, e3⟩ := write_size d p
+    simp only [List.foldl_cons]
+    exact ⟨a1, by rw [a2, e3], by rw [a3, e2]⟩
+
+/-- **transparent, for every history of writes** (BLAKE2b / BLAKE2s): take an unkeyed hash of any digest size,
+    Write any chunks, MarshalBinary, UnmarshalBinary into a fresh unkeyed hash (of any digest size — the size
+    travels in the state): the copy *is* the original state, so every later Write/Sum/Reset history gives the
+    same outputs on both -/
+theorem transparent_history (L : Laws A) (K : CodecLaws A) (size size' : Nat) (d0 fresh : Digest A)
+    (h0 : newDigest A size [] = some d0) (hf : newDigest A size' [] = some fresh) (chunks : List Bytes) :
+    ∃ m, (chunks.foldl Digest.write d0).marshal = some m ∧
+      fresh.unmarshal m = .ok (chunks.foldl Digest.write d0) ∧
+      ∀ d', fresh.unmarshal m = .ok d' → ∀ evs, run d' evs = run (chunks.foldl Digest.write d0) evs := by
+  have hs0 := newDigest_safe L size [] d0 h0
+  obtain ⟨hs, hkl, hkey⟩ := foldl_write_safe L chunks d0 hs0
+  have key0 : ∀ (sz : Nat) (d : Digest A), newDigest A sz [] = some d → d.keyLen = 0 ∧ d.key = copyAt (zeros A.bs) 0 [] := by
+    intro sz d hd
+    obtain ⟨_, _, e1, e2, _⟩ := rel_new L sz [] d hd
+    exact ⟨by simpa using e1, e2⟩
+  obtain ⟨k1, k2⟩ := key0 size d0 h0
+  obtain ⟨f1, f2⟩ := key0 size' fresh hf
+  have hm : ∃ m, (chunks.foldl Digest.write d0).marshal = some m := by
+    unfold Digest.marshal
+    rw [if_neg (by rw [hkl, k1]; simp)]
+    exact ⟨_, rfl⟩
+  obtain ⟨m, hm⟩ := hm
+  obtain ⟨t1, t2⟩ := transparent K (chunks.foldl Digest.write d0) fresh m hs hm (by rw [f2, hkey, k2]) f1
+  exact ⟨m, hm, t1, t2⟩
+
+theorem newKeccak_safe : KSafe newKeccak256 ∧ KSafe newKeccak512 := by
+  constructor <;> (refine ⟨?_, ?_, ?_, ?_, ?_⟩ <;> simp [newKeccak256, newKeccak512, zeros_length])
+
+/-- Keccak: Writes keep the sponge safe and keep its kind (rate, output length) -/
+theorem k_write_preserves (d d' : KState) (p : Bytes) (hs : KSafe d) (h : d.write p = .ok d') :
+    KSafe d' ∧ d'.rate = d.rate ∧ d'.outputLen = d.outputLen := by
+  unfold KState.write at h
+  split at h
+  · cases h
+  · obtain ⟨d'', e1, e2, _, e4, e5⟩ := k_absorb_safe d p hs
+    rw [e1] at h
+    injection h with h
+    subst h
+    exact ⟨e2, e4, e5⟩
+
+/-- **transparent (legacy Keccak)**: MarshalBinary then UnmarshalBinary into a fresh sponge of the same kind
+    returns nil and reproduces the state exactly — for every safe state, in particular every state reached from
+    NewLegacyKeccak256/512 by Writes (`newKeccak_safe`, `k_write_preserves`) or Reads (`k_read_safe`) -/
+theorem k_transparent (d fresh : KState) (hs : KSafe d) (hr : fresh.rate = d.rate) (ho : fresh.outputLen = d.outputLen) :
+    fresh.unmarshal d.marshal = (none, d) := by
+  rw [k_unmarshal_marshal d fresh hs hr]
+  congr 1
+  cases d; cases fresh; simp_all
+
+/-! non-vacuity: fresh unkeyed hashes exist for the hypotheses of `transparent_history` -/
+example : (newDigest B 32 []).isSome = true ∧ (newDigest S 32 []).isSome = true := by decide
+
 end XC.C07
